@@ -32,12 +32,34 @@ CHECKS = {
  "C17": ("vec", "exploration", "Every mutator with every index 0..len+2 directly and in transactions, all traversal decision sequences over {keep,set,remove,set-then-remove,stop} for lengths <=5 (quick) / <=6 (thorough): return values, contents, panics (catch_unwind), notifications and visiting order compared with a plain Vec model; vectors beyond one imbl chunk; transactions during which every receiver goes away (all bodies of length <=5 over a 6-operation alphabet).", "runtime monitoring: differential against a plain-Vec model", "5/C17"),
 }
 
+# workloads added after the third round of seeded changes (DESIGN.md 14.6)
+ADD = {
+ "C01": "Conditional setters that store nothing are also judged on the identity of the stored instance; same-waker mode; clone_from between observables.",
+ "C02": "Poll storms (dozens of distinct wakers pending between two updates), one-waker-per-subscriber mode, and a many-waiters thread round (up to 120 wakers pending at once against 1-3 writer threads).",
+ "C04": "A many-waiters round (poller threads multiplexing 8-40 subscribers each) adds the lost-wakeup and final-value oracle for more than 32/64 simultaneous waiters.",
+ "C05": "Backlog histories (capacities 64-1024, rare polls: one batched poll collects dozens of messages); transactions of 33-140 operations; a Reset for a subscriber that never fell behind is a C05 fault too.",
+ "C06": "Backlog histories around capacities 31-256 with hundreds of undelivered messages.",
+ "C07": "One transaction in forty records 33-140 operations; large vectors (a traversal inside a transaction records one diff per element).",
+ "C08": "Eight subscriber situations since round three (lagged with an empty final state, directly and via a transaction).",
+ "C09": "Backlog generators (capacities 33-256, 80-300 operations, polls at 2%) and far runs (33-90 updates at one end of a long vector, then one at the other); a stage that stops before its input was Pending is judged against the vector's contents at that moment.",
+ "C10": "Backlog generators as in C09.", "C11": "Backlog generators as in C09.",
+ "C12": "Backlog and far-run generators as in C09.", "C13": "Backlog generator as in C09 (batched).",
+ "C14": "Long histories, backlog and far-run generators (dozens of ignored/filtered updates consumed by one poll).",
+ "C15": "Backlog and far-run generators as in C09.",
+ "C16": "One-waker-per-subscriber mode (will_wake paths), poll storms.",
+ "C18": "Targets and payloads with an internal structure that comes from a history (carved out of larger vectors, shifted fronts, several leaves although short).",
+ "C19": "Clone::clone_from between handles of two observables.",
+ "C20": "Large-vector variants of the vector and adapter accounting runs.",
+}
+
 checks = []
 for p in props:
     pid = p["id"]
     if pid not in CHECKS:
         continue
     engine, cat, text, tech, ref = CHECKS[pid]
+    if pid in ADD:
+        text = text + " " + ADD[pid]
     checks.append({
         "property_id": pid,
         "quick_cmd": f"./check {pid} --tier quick",
